@@ -34,6 +34,9 @@ def run(ctx):
         box.put("exists.json", b"{}")
         box.put("binary.tjp", b'project p "P\xff\xfe" 2025-01-06 +1w {}\n')
         box.put("escape.tjp", texts[0] + b'\ntaskreport esc "../escaped_by_name" { formats json columns id }\n')
+        # report definitions the library ends with a fatal error (MessageHandler.error -> sys.exit)
+        box.put("anon.tjp", texts[0] + b'\ntaskreport { formats json columns id }\n')
+        box.put("badname.tjp", texts[0] + b'\ntaskreport q "what?" { formats csv columns id }\n')
         base_cwd = cli.listing(box.cwd)
 
         def leftovers(label, extra_ok=()):
@@ -64,7 +67,15 @@ def run(ctx):
                   ("output exists", ["report", "-o", "exists.json", names[0]], None, None),
                   ("output exists stdin", ["report", "--output", "exists.json"], texts[0], None),
                   ("verbose", ["--verbose", "report", names[0]], None, None),
+                  ("quiet", ["--quiet", "report", names[0]], None, None),
+                  ("quiet csv stdin", ["--quiet", "report", "--csv"], texts[-1], None),
+                  ("quiet failing", ["--quiet", "report", "syntax.tjp"], None, None),
+                  ("verbose failing", ["--verbose", "report", "syntax.tjp"], None, None),
+                  ("verbose stdin", ["--verbose", "report", "-"], texts[0], None),
                   ("undecodable", ["report", "binary.tjp"], None, None),
+                  ("fatal anonymous report", ["report", "anon.tjp"], None, None),
+                  ("fatal report name", ["report", "--csv", "badname.tjp"], None, None),
+                  ("fatal report name stdin", ["report"], texts[0] + b'\ntaskreport q "what?" { formats json columns id }\n', None),
                   ("output new file", ["report", "-o", "out_new.json", names[0]], None, None),
                   ("output forced", ["report", "--force", "-o", "exists.json", names[0]], None, None)]
         for label, args, stdin, key in paths:
@@ -75,6 +86,24 @@ def run(ctx):
             leftovers(label, extra_ok=("out_new.json",))
             if r["rc"] == "timeout":
                 bad.append({"what": "plan invocation hung", "path": label})
+        # ---- stdout is a pipe whose reader has gone away before the report is written (plan report x.tjp | head -0)
+        import subprocess
+        for label, args, stdin in (("closedpipe json file", ["report", names[0]], None),
+                                   ("closedpipe csv stdin", ["report", "--csv"], texts[0]),
+                                   ("closedpipe json quiet", ["--quiet", "report", names[-1]], None)):
+            p = box.popen(args, stdin)
+            p.stdout.close()
+            try:
+                if stdin is not None:
+                    p.stdin.write(stdin)
+                    p.stdin.close()
+                p.stderr.read()
+                p.wait(timeout=120)
+            except (OSError, subprocess.TimeoutExpired):
+                p.kill()
+                p.wait()
+            stats["path:closedpipe"] += 1
+            leftovers(label, extra_ok=("out_new.json",))
         # ---- the temp-file life cycle, system call by system call, against Model/Cli.v (trace)
         def model_trace(chan, inp, ok):
             line = "trace %d %d %d" % (0 if chan == "file" else 1, {"missing": 0, "notafile": 1, "empty": 2, "content": 3, "undecodable": 4}[inp], 1 if ok else 0)
@@ -86,6 +115,8 @@ def run(ctx):
                   ("stdin - ok", ["report", "-"], texts[-1], ("stdin", "content", True)),
                   ("file syntax error", ["report", "syntax.tjp"], None, ("file", "content", False)),
                   ("stdin syntax error", ["report"], b'project p "P" 2025-01-06 +1w {\n', ("stdin", "content", False)),
+                  ("file fatal library error", ["report", "anon.tjp"], None, ("file", "content", False)),
+                  ("stdin fatal library error", ["report", "-"], texts[0] + b'\ntaskreport q "what?" { formats json columns id }\n', ("stdin", "content", False)),
                   ("missing", ["report", "nope.tjp"], None, ("file", "missing", True)),
                   ("empty file", ["report", "empty.tjp"], None, ("file", "empty", True)),
                   ("empty stdin", ["report"], b"", ("stdin", "empty", True)),
@@ -166,7 +197,7 @@ def run(ctx):
         violations.append({"no_input": True, "replay": common.write_replay(ctx, {"property": "C20", "kind": "proof obligation no longer checks; no failing input found", "failing_obligations": failing})})
     cov = {"obligations": nob, "discharged": ndis, "checker_cmd": "tools/coqbuild.sh (coqc 8.16.1 full .vo build)", "trusted_base": common.TRUSTED, "files": files,
            "traces_validated_against_impl": sum(stats.values()), "input_distribution": dict(stats), "findings": len(bad),
-           "rule": "the real entry point as a subprocess with a private cwd and TMPDIR; directory listings before/after every exit path (success json/csv, stdin, own reports incl. one whose name contains a path separator, missing / empty / syntax-error input from file and stdin, output file exists with and without --force, new output file, --verbose); nine of the paths also under strace: the order in which the run's own temporary names (stdin copy, combined file, private output directory) are created and removed is compared with the extracted Model/Cli.v (trace) and no other name may appear in TMPDIR; then N concurrent invocations (12 quick / 60 thorough) in the same cwd and TMPDIR on the same and on different inputs incl. failing ones, each compared byte-wise with its solitary run. The concurrent part is testing and labelled so.",
+           "rule": "the real entry point as a subprocess with a private cwd and TMPDIR; directory listings before/after every exit path (success json/csv, stdin, own reports incl. one whose name contains a path separator, missing / empty / syntax-error input from file and stdin, report definitions that the library ends with sys.exit (anonymous report, invalid character in the name), output file exists with and without --force, stdout a pipe whose reader is gone, new output file, --verbose and --quiet on succeeding and failing runs); eleven of the paths also under strace: the order in which the run's own temporary names (stdin copy, combined file, private output directory) are created and removed is compared with the extracted Model/Cli.v (trace) and no other name may appear in TMPDIR; then N concurrent invocations (12 quick / 60 thorough) in the same cwd and TMPDIR on the same and on different inputs incl. failing ones, each compared byte-wise with its solitary run. The concurrent part is testing and labelled so.",
            "samples": [{"args": ["report", "-o", "exists.json", "p0.tjp"], "expect": "exit 2, nothing left in TMPDIR"}]}
     common.finish(ctx, "proof", cov, violations,
                   ["partial: kernel scheduling and the file system are runtime; freshness of mkstemp / mkdtemp / token_hex names is the assumption of the commutation theorem"],
